@@ -13,6 +13,7 @@ PROPS = {
     "C01": P(gomaxprocs=[1, 2, 4, 4]),
     "C02": P(gomaxprocs=[1, 2, 4, 4]),
     "C03": P(shards={"quick": 16, "thorough": 16}),
+    "C19": P(),
     "C05": P(),
     "C06": P(),
     "C20": P(),
